@@ -69,6 +69,7 @@ func main() {
 		}
 	}()
 	start := time.Now()
+	stopProf := startProf()
 	u, err := LoadUniverse(*repo, "amd64")
 	if err != nil {
 		fatalAll(ids, *verif, err)
@@ -83,6 +84,7 @@ func main() {
 	}
 	if *dump != "" {
 		debugDump(prog, *dump)
+		stopProf()
 		return
 	}
 	known, err := loadKnown(filepath.Join(*verif, "known_findings.json"))
@@ -107,6 +109,7 @@ func main() {
 		}
 	}
 	_ = start
+	stopProf()
 	os.Exit(exit)
 }
 
@@ -148,6 +151,27 @@ func debugDump(p *Prog, what string) {
 		pr("mutator", len(r.Mutator))
 		pr("ctor", len(r.Ctor))
 		pr("unclassed", r.Unclassed)
+	case strings.HasPrefix(what, "eff:"):
+		n := strings.TrimPrefix(what, "eff:")
+		e := NewEffects(p, nil)
+		for _, f := range p.AllFuncs() {
+			if n != "*" && qname(f) != n {
+				continue
+			}
+			s := e.Summary(f)
+			fmt.Println("==", qname(f))
+			for _, w := range s.Writes {
+				fmt.Printf("   W %-18s %-28s %s %s chain=%d %s\n", w.Kind, w.Target, p.Pos(w.Ins.Pos()), w.Field, len(w.Chain), w.Note)
+			}
+			for _, r := range s.Retains {
+				fmt.Printf("   R %s -> %s at %s\n", r.Val, r.Into, p.Pos(r.Ins.Pos()))
+			}
+			for i, r := range s.Results {
+				if len(r) > 0 {
+					fmt.Printf("   res%d %s\n", i, r)
+				}
+			}
+		}
 	case strings.HasPrefix(what, "calls:"):
 		n := strings.TrimPrefix(what, "calls:")
 		for _, f := range p.AllFuncs() {
